@@ -217,6 +217,49 @@ def w_zero_input(ctx, rng, i):
     ctx.case(("zero", n_pol, n))
 
 
+def w_layouts(ctx, rng, i):
+    """every container layout FIBER can be handed: record lengths 1, 2, 3, small primes, one/two polarisations, with and without
+    a noise component (which FIBER carries along), complex / real / integer sample dtypes, every branch of the propagator
+    (closed-form SPM, purely linear, split-step). fiber.finite_shape / fiber.energy decide; a one-polarisation twin of the
+    x row is compared as well."""
+    fs = set_fs(rng)
+    n = int([1, 2, 3, 5, 7, 13, 16, 31, 1, 2][i % 10])
+    n_pol = 1 + (i // 10) % 2
+    noise = ["none", "complex", "real"][(i // 20) % 3]
+    dt = ["complex", "float", "int"][(i // 60) % 3]
+    branch = ["split", "split_b3", "spm", "linear"][int(rng.integers(4))]
+    shape = (2, n) if n_pol == 2 else (n,)
+    if dt == "int":
+        s = rng.integers(-3, 4, shape)
+        s[..., 0] = np.where(s[..., 0] == 0, 1, s[..., 0])          # amplitudes of a few sqrt(W): gamma is scaled to the peak power below
+    else:
+        s = rng.normal(0, 0.3, shape) + (1j * rng.normal(0, 0.3, shape) if dt == "complex" else 0)
+    nz = None if noise == "none" else (rng.normal(0, 0.01, shape) + (1j * rng.normal(0, 0.01, shape) if noise == "complex" else 0))
+    x = T.optical_signal(s, nz)
+    peak = float(np.max(np.sum(np.abs(np.atleast_2d(x.signal)) ** 2, axis=0)))
+    L = float(10 ** rng.uniform(-0.5, 1.5))
+    alpha = float(rng.uniform(0, 0.5)) if rng.integers(3) else 0.0
+    b2 = 0.0 if branch in ("spm", "split_b3") else float(rng.uniform(-25, 25))
+    b3 = float(rng.uniform(0.02, 0.2)) if branch == "split_b3" else 0.0
+    gamma = 0.0 if branch == "linear" else float(rng.uniform(0.1, 1) * min(5.0, 10.0 / (max(peak, 1e-12) * L)))
+    phi = float(10 ** rng.uniform(-2.3, -1))
+    ctx.describe(n=n, n_pol=n_pol, noise=noise, dtype=dt, branch=branch, L=L, alpha=alpha, beta_2=b2, beta_3=b3, gamma=gamma, phi_max=phi)
+    d0 = core.digest(x.signal, x.noise)
+    with core.quiet():
+        y = D.FIBER(x, L, alpha, b2, b3, gamma, phi)                       # fiber.finite_shape / fiber.energy decide
+        ctx.check("layout.class", isinstance(y, T.optical_signal) and y.n_pol == n_pol and y.len() == n, f"FIBER returned n_pol={getattr(y, 'n_pol', None)}, len={y.len() if hasattr(y, 'len') else None} for a {shape} input")
+        if n_pol == 2 and np.all(np.isfinite(y.signal)) and y.signal.shape == shape:
+            x1 = T.optical_signal(np.stack([x.signal[0], np.zeros(n)]))
+            y2 = D.FIBER(x1, L, alpha, b2, b3, gamma, phi)
+            y1 = D.FIBER(T.optical_signal(x.signal[0].copy()), L, alpha, b2, b3, gamma, phi)
+            ctx.check("onepol.equals_x", y1.signal.shape == (n,) and y2.signal.shape == (2, n) and relL2(y1.signal, y2.signal[0]) <= 1e-12 and np.all(y2.signal[1] == 0),
+                      f"a one-polarisation signal of {n} samples does not propagate like the x-polarisation of a two-polarisation signal with empty y")
+    ctx.check("input_unchanged", core.digest(x.signal, x.noise) == d0, "FIBER modified its input")
+    ctx.case(("layout", n, n_pol, noise, dt, branch), sample=dict(n=n, n_pol=n_pol, noise=noise, dtype=dt, branch=branch) if i < 3 else None)
+    ctx.bin("layout.n", n)
+    ctx.bin("layout.noise", noise)
+
+
 def w_spm(ctx, rng, i):
     """no dispersion: out = in * exp(-a L/2) * exp(j g |in|^2 L_eff)."""
     fs = set_fs(rng)
@@ -345,6 +388,11 @@ def w_two_grids(ctx, rng, i):
     ctx.case(("grids", n_pol, fa, fb), sample=dict(fs_sequence=[fa, fb, fa], L=L, gamma=gamma, beta_2=b2) if i < 2 else None)
 
 
+def FORM_TWINS():
+    import opticomlib.devices as dv
+    return [(dv, ["FIBER"])]
+
+
 WORKLOADS = [
     Workload("general", w_general, 1500, 16000, budget=90),
     Workload("zero_input", w_zero_input, 8, 80, budget=30),
@@ -353,6 +401,7 @@ WORKLOADS = [
     Workload("converge", w_converge, 80, 1200, budget=300),
     Workload("deep", w_deep, 8, 160, budget=300),
     Workload("two_grids", w_two_grids, 24, 600, budget=300),
+    Workload("layouts", w_layouts, 360, 7200, budget=120),
 ]
 
 
